@@ -16,6 +16,10 @@ or its new value (absent is a value for set-new / delete); `keys()` lists exactl
 `.new`/`.rpl` residue, no exception), `len(db)` agrees; a following completed set of the interrupted
 key is readable and survives another reopen.
 
+Containment: every path handed to twisted lives under one mkdtemp() top and ALL target code (also the
+crash-free phases and the reboots) runs inside a FaultFS, which refuses — without executing — any
+mutating filesystem call outside that top and reports it as `filesystem-call-outside-scratch`.
+
 Guards: nothing is demanded about *which* of old/new survives; values carry unique ids so that a
 read identifies its write; the buffered-write model is conservative (bytes reach the disk only at
 flush/close or as a torn prefix at the crash point) but never invents bytes.
@@ -287,7 +291,7 @@ def run(ctx):
     depth = 1 if ctx.quick else 2
     if not selftest_or_inconclusive(ctx):
         return
-    for i in ctx.cases(300, 20000):
+    for i in ctx.cases(600, 12000):
         run_case(ctx, i, depth)
 
 
